@@ -49,13 +49,15 @@ def predictor_obligations(rep):
     from mindsdb_sql.planner.steps import ApplyPredictorStep
     fn = f'{PJ}:PlanJoinTablesQuery.process_predictor'
     shapes = ['eq-const', 'eq-param', 'eq-target', 'gt-const']
+    # the target is 'price' (written 'Price' in the query); the other model columns are a substring, a superstring and an infix of that name
+    COLS = ['ice', 'pricey', 'ric', 'x3']
 
     def cond(ex, shape, i):
         orig = SymObj({BinaryOperation}, f'orig{i}', prov='param')
         orig.fields['args'] = ex.param_container(['orig_a', 'orig_b'])
         n = SymObj({BinaryOperation}, f'cond{i}', prov='param')
         col = SymObj({Identifier}, f'cond{i}.col', prov='param')
-        col.fields.update(parts=ex.param_container(['P' if shape == 'eq-target' else f'x{i}']), alias=None, parentheses=False)
+        col.fields.update(parts=ex.param_container(['Price' if shape == 'eq-target' else COLS[i]]), alias=None, parentheses=False)
         if shape == 'eq-param':
             val = SymObj({Parameter}, f'cond{i}.param', prov='param')
         else:
@@ -65,10 +67,12 @@ def predictor_obligations(rep):
         return n, orig, val
 
     for combo in [(a,) for a in shapes] + [('eq-const', 'gt-const'), ('eq-const', 'eq-target', 'eq-param'), ()]:
-        for using in ('none', 'params'):
-            tag = ('+'.join(combo) or 'no-conditions') + f'.using-{using}'
+        for using, tp in (('none', 'price'), ('params', 'price'), ('none', ['price']), ('none', None)):
+            tag = ('+'.join(combo) or 'no-conditions') + f'.using-{using}' + ('' if tp == 'price' else ('.target-list' if tp else '.target-none'))
+            if tp is None and 'eq-target' in combo:
+                continue
 
-            def make_args(ex, combo=combo, using=using):
+            def make_args(ex, combo=combo, using=using, tp=tp):
                 selfo = SymObj(None, 'self', prov='param')
                 selfo.known_not_none = True
                 prev = SymObj(None, 'data_step', prov='param')
@@ -92,7 +96,7 @@ def predictor_obligations(rep):
                     conds.append(c)
                     origs.append(o_)
                     vals.append(v_)
-                item.fields.update(predictor_info={'to_predict': 'p'}, join_condition=None, conditions=ex.param_container(conds),
+                item.fields.update(predictor_info=({'to_predict': tp} if tp is not None else {}), join_condition=None, conditions=ex.param_container(conds),
                                    integration='mindsdb', table=SymObj(None, 'model_ident', prov='param'), aliases=[('m',)])
                 q = SymObj(None, 'query_in', prov='param')
                 q.known_not_none = True
@@ -121,7 +125,7 @@ def predictor_obligations(rep):
                 consumed = []
                 for i, sh in enumerate(combo):
                     if sh in ('eq-const', 'eq-param'):
-                        want[f'x{i}'] = st['vals'][i].fields['value']
+                        want[COLS[i]] = st['vals'][i].fields['value']
                         consumed.append(i)
                 rd = f.get('row_dict')
                 if not combo:
@@ -332,6 +336,18 @@ def replay_attr(const_first, opname):
 
 def replay_model(sql):
     from mindsdb_sql.planner.steps import ApplyPredictorStep
+    # first: a model whose target name contains the names of other model columns (string and list form of to_predict)
+    from mindsdb_sql import parse_sql
+    from mindsdb_sql.planner.query_planner import QueryPlanner
+    for tp in ('price', ['price']):
+        sql2 = "SELECT * FROM int1.tbl1 AS t JOIN mindsdb.pred AS m WHERE m.ice = 1 AND m.pricey = 3 AND m.Price = 10 AND t.a = 2"
+        try:
+            p2 = QueryPlanner(parse_sql(sql2), integrations=['int1'], predictor_metadata=[{'name': 'pred', 'integration_name': 'mindsdb', 'to_predict': tp}], default_namespace='mindsdb').from_query()
+            ap2 = [s_ for s_ in p2.steps if isinstance(s_, ApplyPredictorStep)]
+            if not (len(ap2) == 1 and ap2[0].row_dict == {'ice': 1, 'pricey': 3}):
+                return {'input': sql2, 'dialect': 'mindsdb', 'fires': True, 'observed': f'to_predict={tp!r}: row_dict={ap2[0].row_dict if ap2 else None}', 'expected': "{'ice': 1, 'pricey': 3}"}
+        except Exception as e:
+            pass
     try:
         p = plan(sql)
     except Exception as e:
